@@ -1,6 +1,6 @@
 #!/usr/bin/env python3
 """
-confirm_seed.py <outdir> <worktree> — confirm one seeded change independently of whoever wrote it.
+confirm_seed.py <outdir> <worktree> [race] — confirm one seeded change independently of whoever wrote it.
 
 <outdir> holds patch.diff and demo_test.go (an external or in-package Go test).  <worktree> is a clean
 scratch git worktree of /repo (outside /repo and /verif).  Steps, all in the worktree:
@@ -19,14 +19,18 @@ PKGDIR = {"ws_test": ".", "ws": ".", "wsutil_test": "wsutil", "wsutil": "wsutil"
 
 
 def sh(cmd, cwd, timeout=1500):
-    p = subprocess.run(cmd, cwd=cwd, env=ENV, shell=isinstance(cmd, str), text=True,
+    p = subprocess.run(cmd, cwd=cwd, env=ENV, shell=isinstance(cmd, str), text=True, errors="replace",
                        stdout=subprocess.PIPE, stderr=subprocess.STDOUT, timeout=timeout)
     return p.returncode, p.stdout
 
 
 def main():
     out, wt = sys.argv[1], sys.argv[2]
-    res = {"outdir": out}
+    race = len(sys.argv) > 3 and sys.argv[3] == "race"   # the demonstration needs the race detector
+    if race:
+        ENV["CGO_ENABLED"] = "1"
+    demo_flags = ["-race"] if race else []
+    res = {"outdir": out, "demo_needs_race_detector": race}
     demo = os.path.join(out, "demo_test.go")
     pkg = re.search(r"^package\s+(\S+)", open(demo).read(), re.M).group(1)
     d = PKGDIR[pkg]
@@ -37,7 +41,7 @@ def main():
     sh("git checkout -- . && git clean -fdq", wt)
     try:
         shutil.copyfile(demo, dst)
-        rc, o = sh(["go", "test", "-vet=off", "-count=1", "-run", run, "./" + d], wt)
+        rc, o = sh(["go", "test"] + demo_flags + ["-vet=off", "-count=1", "-run", run, "./" + d], wt)
         res["demo_clean_pass"] = rc == 0
         if rc != 0:
             res["demo_clean_out"] = o[-1500:]
@@ -53,7 +57,7 @@ def main():
         if rc != 0:
             res["suite_out"] = o[-1500:]
         shutil.copyfile(demo, dst)
-        rc, o = sh(["go", "test", "-vet=off", "-count=1", "-run", run, "./" + d], wt)
+        rc, o = sh(["go", "test"] + demo_flags + ["-vet=off", "-count=1", "-run", run, "./" + d], wt)
         res["demo_fails_with_patch"] = rc != 0
         res["demo_patched_tail"] = o[-600:]
     finally:
